@@ -16,7 +16,7 @@ TRUSTED = [
 ASSUMPTIONS = ["liveness is conditional: an update without a position-bearing rectangle does not call commitUpdate, so the capture keeps waiting for the next one (consistent with 'completes only after an update ... has been applied in full')",
                "a capture issued while an update is half decoded completes at that update's commit: the image is never half-applied, but that update began before the request (counted: captures_issued_mid_update)"]
 RULE = ("scripts of captures / region captures mixed with pauses and other commands; server updates of 1..3 rectangles in Raw/RRE/CoRRE/Hextile/ZRLE, DesktopSize changes before and between "
-        "captures, unsolicited and empty updates, updates split into chunks with timers firing in between (captures issued mid-update); non-trivial = distinct session with >= 1 completed capture")
+        "captures, unsolicited and empty updates, updates split into chunks with timers firing in between (captures issued mid-update), the connection going down half way through an update; non-trivial = distinct session with >= 1 completed capture")
 
 
 def ref_crop(ref, box):
@@ -105,6 +105,7 @@ def run(ctx):
             spec.resizes = True
             spec.midfire = True
             spec.unsolicited = 0.5
+            spec.midloss = 0.12          # the connection may go down in the middle of an update, with a capture waiting
             size0 = spec.size
             res = drive(r, spec)
             inp = {"words": spec.words, "delay": spec.delay, "warp": spec.warp, "incremental": spec.incremental, "size": list(size0),
@@ -115,6 +116,8 @@ def run(ctx):
             ctx.case({"words": spec.words, "captures_completed": ncap, "trace": [t[:50] for t in tl if not t.startswith("w:05")][9:22]} if len(ctx.samples) < 3 and ncap else None,
                      key=si if ncap else None)
             ctx.count("captures_completed", ncap)
+            if any(e[0].startswith("lose") for e in res["events"]) and "close" not in tl:
+                ctx.count("sessions_losing_the_connection_early")
             ctx.count("sessions_with_resize" if any(t.startswith("desktop:") for t in tl) else "sessions_without_resize")
             if res["error"] or not res["connects"]:
                 ctx.violate("vncdo-rejects-valid-script", dict(rp, observed="vncdo() ended with %r" % (res["error"],)))
@@ -123,6 +126,8 @@ def run(ctx):
             ctx.count("captures_issued_mid_update", n_mid)
             if bad:
                 ctx.violate("capture", dict(rp, observed=bad))
+            elif res.get("stalled"):
+                ctx.violate("capture-never-completes", dict(rp, observed="a capture is outstanding, the connection is up, yet nobody waits for the next update any more: the capture can never complete"))
             ml, chk = compare_with_model(ctx, spec, res, "model-vs-vncdo", inp)
             if chk:
                 checks.append((len(lines), len(ml), chk))
